@@ -262,6 +262,23 @@ class PathState:
             if lst is not None:
                 self.assign(c.dest, lst)
                 return
+            if c.callee.endswith('::from_residual') and args:
+                # `helper(..)?` of an inlined helper that returned Err(e) on this path: the function returns Err(e) (through From::from)
+                x = self.deep(args[0])
+                if x[0] == 'field' and x[1][0] == 'variant' and x[1][2] == 'Break':
+                    x = x[1][1]         # the residual carried by Break(..) is the Err(..) value itself
+                for _ in range(8):
+                    if x[0] in ('ref', 'deref', 'refm'):
+                        x = x[1]
+                    elif x[0] == 'via' and x[1].endswith('::Try>::branch'):
+                        x = x[2]
+                    elif x[0] == 'refl':
+                        x = self.env.get(x[1], ('unknown', 'undef'))
+                    else:
+                        break
+                if x[0] == 'agg' and x[1] == 'std::result::Result' and x[2] == 'Err':
+                    self.assign(c.dest, x)
+                    return
             for a in args:
                 r = root_mut_local(a) if not is_transparent(c.callee) else None
                 if r is not None:
@@ -426,7 +443,10 @@ def strip(e):
         elif e[0] == 'field' and e[2] == '0' and e[1][0] == 'bin' and e[1][1].endswith('WithOverflow'):
             e = ('bin', e[1][1][:-len('WithOverflow')], e[1][2], e[1][3])
         elif e[0] == 'field' and e[1][0] == 'variant' and e[1][2] in ('Continue', 'Break', 'Some', 'Ok', 'Err'):
-            e = e[1][1]      # payload of a Result/Option/ControlFlow value: identified with that value
+            p = peel_payload(e)
+            # payload of a Result/Option/ControlFlow value: the operand when the value was built on this path (an inlined `helper(..)?`),
+            # otherwise identified with that value
+            e = p if p is not e else e[1][1]
         elif e[0] == 'variant':
             e = e[1]
         else:
